@@ -570,4 +570,181 @@ theorem threeWay_rrel (S : Schema) : ∀ (L : List Node) (f extra : Nat) (M : Li
                           · simp at h
                   · simp at h
 
+/-! ### `atLevel`, `outer`, `replaceKids` -/
+
+theorem rightRel_flat_of_toks' (S : Schema) {L' R : List Node} {t : Nat} {rest : List Node}
+    (hs : splitRight R t = some (.flat rest)) (hR : fnorm R = true) (hL' : fnorm L' = true)
+    {Z : List Tok} (htk : ftoks L' = Z ++ (ftoks R).drop t)
+    (ha : alignedAt L' (fsize L' - (fsize R - t)) = true) :
+    RightRel S L' (fsize L' - (fsize R - t)) R t := by
+  have ht := splitRight_le _ _ _ hs
+  have hlen := congrArg List.length htk
+  simp only [List.length_append, List.length_drop, ftoks_length] at hlen
+  refine rightRel_flat_of_toks S hs hR hL' (by omega) ha ?_
+  rw [htk, drop_app_ge _ _ _ (by omega)]
+  have : fsize L' - (fsize R - t) - Z.length = 0 := by omega
+  rw [this, List.drop_zero]
+
+theorem atLevel_rrel (S : Schema) {sl : Slice} {ty : TypeId} {level : List Node} {f t extra : Nat}
+    {level' : List Node} (h : atLevel S sl ty level f t extra = .ok level')
+    (hn : fnorm level = true) (hsn : fnorm sl.content = true) (hwf : sl.wf = true)
+    (hf : f ≤ fsize level) (ht : t ≤ fsize level)
+    (hbr : bridgeCompat S extra (singleDepth sl.content sl.openStart sl.openEnd) level f level t = true)
+    (ha : alignedAt level' (fsize level' - (fsize level - t)) = true) :
+    RightRel S level' (fsize level' - (fsize level - t)) level t := by
+  have htk := atLevel_toks hwf hf h
+  have hn' := atLevel_norm hn hsn h
+  have hk := fnormKids_of_fnorm hn
+  have hwf' := hwf
+  simp only [Slice.wf, Bool.and_eq_true, decide_eq_true_eq] at hwf'
+  -- whenever the old side is flat at `t`, tokens suffice
+  have flatCase : ∀ rest, splitRight level t = some (.flat rest) →
+      RightRel S level' (fsize level' - (fsize level - t)) level t :=
+    fun rest hs => rightRel_flat_of_toks' S hs hn hn' htk ha
+  unfold atLevel at h
+  simp only at h
+  split at h
+  · rename_i c hc
+    split at h
+    · simp at h; subst h
+      split at hc
+      · cases hx : twoWay S level f level t with
+        | error e => rw [hx] at hc; simp [Except.map] at hc
+        | ok r =>
+          rw [hx] at hc; simp [Except.map] at hc; subst hc
+          have := twoWay_rrel S level f level t r hx hk hn [] (by simp)
+            (by simpa [fromArray_size] using ha)
+          simpa [fromArray_size] using this
+      · split at hc
+        · rename_i hcond
+          simp only [Bool.and_eq_true, decide_eq_true_eq] at hcond
+          obtain ⟨_, hdt⟩ := hcond
+          split at hc
+          · rename_i l r hl hr
+            have hat : alignedAt level t = true := by
+              by_cases hlt : t < fsize level
+              · exact (fcut_aligned hlt (Nat.le_refl _) hr).1
+              · have : t = fsize level := by omega
+                rw [this]; exact alignedAt_fsize _
+            obtain ⟨rest, hs⟩ := splitRight_flat_of_depth level t ht hat hdt
+            exact flatCase rest hs
+          · simp at hc
+          · simp at hc
+        · cases hx : threeWay S level f extra sl.content sl.openStart sl.openEnd level t with
+          | error e => rw [hx] at hc; simp [Except.map] at hc
+          | ok r =>
+            rw [hx] at hc; simp [Except.map] at hc; subst hc
+            have := threeWay_rrel S level f extra sl.content sl.openStart sl.openEnd level t r hx hk
+              (fnormKids_of_fnorm hsn) hn hwf'.1 hwf'.2 hbr [] (by simp)
+              (by simpa [fromArray_size] using ha)
+            simpa [fromArray_size] using this
+    · simp at h
+  · simp at h
+
+theorem outer_rrel (S : Schema) (sl : Slice) (hsn : fnorm sl.content = true) (hwf : sl.wf = true) :
+    ∀ (rest : List Node) (ty : TypeId) (level : List Node) (f0 t0 idx f t extra : Nat)
+      (pre level' : List Node),
+      level = pre ++ rest → idx = pre.length → f0 = fsize pre + f → t0 = fsize pre + t →
+      f ≤ t → t ≤ fsize rest →
+      outer S sl ty level f0 t0 idx rest f t extra = .ok level' → fnorm level = true →
+      bridgeCompat S extra (singleDepth sl.content sl.openStart sl.openEnd) rest f rest t = true →
+      alignedAt level' (fsize level' - (fsize level - t0)) = true →
+      RightRel S level' (fsize level' - (fsize level - t0)) level t0
+  | [], ty, level, f0, t0, idx, f, t, extra, pre, level', hl, hi, hf0, ht0, hft, ht, h, hn, hbr, ha => by
+    have hpre : fnormKids pre = true := by rw [hl] at hn; exact fnormKids_append_left hn
+    unfold outer at h
+    have htz : t = 0 := by simpa using ht
+    refine atLevel_rrel S h hn hsn hwf (by rw [hl, fsize_append]; simp; omega)
+      (by rw [hl, fsize_append]; simp; omega) ?_ ha
+    rw [bridgeCompat_congr S extra _ (L2 := []) (f2 := f) (R2 := []) (t2 := t)
+      (by rw [hl, hf0]; exact splitRight_append_pre pre [] f hpre)
+      (by rw [hl, ht0]; exact splitRight_append_pre pre [] t hpre)]
+    exact hbr
+  | n :: ns, ty, level, f0, t0, idx, f, t, extra, pre, level', hl, hi, hf0, ht0, hft, ht, h, hn, hbr, ha => by
+    have hpre : fnormKids pre = true := by rw [hl] at hn; exact fnormKids_append_left hn
+    simp only [fsize_cons] at ht
+    have here : atLevel S sl ty level f0 t0 extra = .ok level' →
+        RightRel S level' (fsize level' - (fsize level - t0)) level t0 := by
+      intro h'
+      refine atLevel_rrel S h' hn hsn hwf (by rw [hl, fsize_append]; simp; omega)
+        (by rw [hl, fsize_append]; simp; omega) ?_ ha
+      rw [bridgeCompat_congr S extra _ (L2 := n :: ns) (f2 := f) (R2 := n :: ns) (t2 := t)
+        (by rw [hl, hf0]; exact splitRight_append_pre pre _ f hpre)
+        (by rw [hl, ht0]; exact splitRight_append_pre pre _ t hpre)]
+      exact hbr
+    unfold outer at h
+    split at h
+    · exact here h
+    · rename_i hf
+      split at h
+      · rename_i hle
+        refine outer_rrel S sl hsn hwf ns ty level f0 t0 (idx + 1) (f - n.size) (t - n.size) extra
+          (pre ++ [n]) level' (by simp [hl]) (by simp [hi]) (by rw [fsize_append]; simp; omega)
+          (by rw [fsize_append]; simp; omega) (by omega) (by omega) h hn ?_ ha
+        rw [← bridgeCompat_congr S extra _ (splitRight_skip n ns f hf hle)
+          (splitRight_skip n ns t (by omega) (by omega))]
+        exact hbr
+      · rename_i hlt
+        split at h
+        · rename_i tyC aC mC kidsC
+          split at h
+          · rename_i hcond
+            simp only [Bool.and_eq_true, decide_eq_true_eq, Node.size_elem] at hcond
+            simp only [Node.size_elem, Nat.not_le] at hlt
+            obtain ⟨hex, htsz⟩ := hcond
+            split at h
+            · rename_i inner hin
+              simp at h
+              subst hl
+              have hnk := fnorm_child hn
+              have hlev : level' = pre ++ Node.elem tyC aC mC inner :: ns := by
+                rw [← h, hi, set_mid]
+              subst hlev
+              have ht00 : t ≠ 0 := by omega
+              have htk := outer_toks S sl hwf kidsC tyC kidsC (f - 1) (t - 1) 0 (f - 1) (t - 1)
+                (extra - 1) [] inner rfl rfl (by simp) (by simp) (by omega) (by omega) hin
+              have hlen : fsize kidsC - (t - 1) ≤ fsize inner := by
+                have := congrArg List.length htk
+                simp only [List.length_append, List.length_drop, ftoks_length] at this
+                omega
+              have hpos : fsize (pre ++ Node.elem tyC aC mC inner :: ns)
+                    - (fsize (pre ++ Node.elem tyC aC mC kidsC :: ns) - t0)
+                  = fsize pre + (1 + (fsize inner - (fsize kidsC - (t - 1)))) := by
+                rw [fsize_append, fsize_append]
+                simp only [fsize_cons, Node.size_elem]
+                omega
+              rw [hpos] at ha ⊢
+              have hs' : splitRight (pre ++ Node.elem tyC aC mC inner :: ns)
+                  (fsize pre + (1 + (fsize inner - (fsize kidsC - (t - 1)))))
+                  = some (.deep (.elem tyC aC mC inner) (fsize inner - (fsize kidsC - (t - 1))) ns) := by
+                rw [splitRight_append_pre _ _ _ hpre,
+                  splitRight_elem tyC aC mC inner ns _ (by omega) (by omega)]
+                simp
+              have hs0 : splitRight (pre ++ Node.elem tyC aC mC kidsC :: ns) t0
+                  = some (.deep (.elem tyC aC mC kidsC) (t - 1) ns) := by
+                rw [ht0, splitRight_append_pre _ _ _ hpre, splitRight_elem tyC aC mC kidsC ns t ht00 htsz]
+              rw [alignedAt_append_pre, alignedAt_cons, if_neg (by omega),
+                if_neg (by simp; omega)] at ha
+              simp only [Nat.add_sub_cancel_left] at ha
+              obtain ⟨e, rfl⟩ : ∃ e, extra = e + 1 := ⟨extra - 1, by omega⟩
+              simp only [bridgeCompat, splitRight_elem tyC aC mC kidsC ns f hf hlt,
+                splitRight_elem tyC aC mC kidsC ns t ht00 htsz] at hbr
+              have ih := outer_rrel S sl hsn hwf kidsC tyC kidsC (f - 1) (t - 1) 0 (f - 1) (t - 1) e
+                [] inner rfl rfl (by simp) (by simp) (by omega) (by omega) hin hnk hbr ha
+              exact .deep hs' hs0 (compatibleContent_self S tyC) ih
+            · simp at h
+          · exact here h
+        · exact here h
+
+/-- **what a successful replace leaves at the end of the inserted content** -/
+theorem replaceKids_rrel (S : Schema) (ty : TypeId) (K K' : List Node) (f t : Nat) (sl : Slice)
+    (hn : fnorm K = true) (hsn : fnorm sl.content = true)
+    (h : replaceKids S ty K f t sl = .ok K')
+    (hbr : bridgeCompat S (depthAt K f - sl.openStart)
+      (singleDepth sl.content sl.openStart sl.openEnd) K f K t = true)
+    (ha : alignedAt K' (fsize K' - (fsize K - t)) = true) :
+    RightRel S K' (fsize K' - (fsize K - t)) K t := by
+  obtain ⟨hft, ht, hwf, ho⟩ := replaceKids_ok h
+  exact outer_rrel S sl hsn hwf K ty K f t 0 f t _ [] K' rfl rfl (by simp) (by simp) hft ht ho hn hbr ha
+
 end PM
